@@ -105,6 +105,11 @@ inline PropSpec full_spec(const std::string& id, const Tier& t) {
     p.nontrivial = [](uint64_t f) { return (f & F_LASTNULL) != 0; };
     p.rule = "LDPC configuration biased to even N1; encoder session (all repairs, generated payload) and decoder session whose sender skips symbol n-1; non-trivial = IS_LAST_SYMBOL_NULL reported true; distinct = distinct history text";
   }
+  else if (id == "C16") {
+    p.id = "C16"; p.enabled = O_2D | O_SOUND | O_LEAK | O_MEM; p.kind = 7; p.go = g;
+    p.nontrivial = [](uint64_t f) { return ((f & F_DECODED) != 0) || ((f & F_UNSOLV_GEK) != 0); };
+    p.rule = "every (k, r) in 0..17 x 0..12 is offered to of_set_fec_parameters; for each accepted pair the check sets are read off the encoder on an identity payload (each repair built alone) and must form the d x l product structure; the encoder must satisfy every check on generated payloads; the decoder is run on every received subset (2^n; quick tier: complete for n <= 13, 5000 seeded patterns per larger code) through both submission APIs followed by finish, plus sampled orders and release points; non-trivial = pattern with a lost source that is recovered, or >= k received and not recoverable; distinct = distinct history text";
+  }
   return p;
 }
 
@@ -259,6 +264,68 @@ inline bool is_boundary(const Config& c) {
   return false;
 }
 
+// ---- C16 -------------------------------------------------------------------------------------
+// Read the 2D-parity code off the library's encoder (identity payload, each repair built alone),
+// check the product structure, and return the reference code + codeword for cfg's payload.
+// status: 0 accepted, 1 rejected by of_set_fec_parameters, 2 structure violation (msg set)
+struct Obs2D { int status = 1; std::string sig, msg; std::shared_ptr<CodeRef> code; uint32_t d = 0, l = 0; };
+inline Obs2D observe_2d(const Config& cfg) {
+  Obs2D o;
+  uint32_t k = cfg.k, r = cfg.r, n = k + r;
+  void* ses = nullptr;
+#ifndef VERIF_NOSAN
+  at::at_tag = 900;
+#endif
+  if (sh_create(&ses, CODEC_P2D, ROLE_ENC) != 0 || !ses) { o.status = 2; o.sig = "create_failed"; o.msg = "of_create_codec_instance failed for the 2D codec"; return o; }
+  uint32_t Lid = (k + 7) / 8; if (!Lid) Lid = 1;
+  int st = sh_set_params(ses, CODEC_P2D, k, r, Lid, 0, 0, 0);
+  if (st != 0) { sh_release(ses); o.status = 1; return o; }
+  o.status = 0;
+  std::vector<std::vector<uint8_t>> src(k, std::vector<uint8_t>(Lid, 0));
+  for (uint32_t i = 0; i < k; i++) src[i][i / 8] = (uint8_t)(1u << (i % 8));
+  std::vector<std::vector<uint32_t>> S(r);
+  std::vector<void*> tab(n);
+  for (uint32_t j = 0; j < r && o.status == 0; j++) {
+    for (uint32_t i = 0; i < n; i++) tab[i] = i < k ? (void*)src[i].data() : nullptr;
+    std::vector<uint8_t> out(Lid, 0xAA);
+    tab[k + j] = out.data();
+    int bs = sh_build(ses, tab.data(), k + j);
+    if (bs != 0) { o.status = 2; o.sig = "check_without_own_repair"; o.msg = "repair " + std::to_string(k + j) + " cannot be built from the source symbols alone (status " + std::to_string(bs) + "): its check does not have its own repair symbol"; break; }
+    for (uint32_t i = 0; i < k; i++) if (out[i / 8] & (1u << (i % 8))) S[j].push_back(i);
+    for (uint32_t b = k; b < Lid * 8; b++) if (out[b / 8] & (1u << (b % 8))) { o.status = 2; o.sig = "repair_not_linear_in_sources"; o.msg = "repair symbol has bits outside the identity payload"; }
+  }
+  sh_release(ses);
+  if (o.status != 0) return o;
+  auto bad = [&](const std::string& sig, const std::string& msg) { o.status = 2; o.sig = sig; o.msg = "(k=" + std::to_string(k) + ", r=" + std::to_string(r) + ") " + msg; };
+  if (k == 0 || r == 0) { bad("degenerate_accepted", "accepted although no product code exists"); return o; }
+  std::vector<uint32_t> cover(k, 0);
+  for (auto& sj : S) for (uint32_t i : sj) cover[i]++;
+  for (uint32_t i = 0; i < k; i++) if (cover[i] != 2) { bad("source_not_in_two_checks", "source symbol " + std::to_string(i) + " belongs to " + std::to_string(cover[i]) + " checks, not to one row check and one column check"); return o; }
+  auto inter = [&](const std::vector<uint32_t>& a, const std::vector<uint32_t>& b) { uint32_t c = 0; for (uint32_t x : a) if (std::find(b.begin(), b.end(), x) != b.end()) c++; return c; };
+  std::vector<uint32_t> A{0}, B;
+  for (uint32_t j = 1; j < r; j++) (inter(S[0], S[j]) == 0 ? A : B).push_back(j);
+  for (size_t a = 0; a < A.size(); a++) for (size_t b = a + 1; b < A.size(); b++) if (inter(S[A[a]], S[A[b]])) { bad("not_a_product_code", "checks " + std::to_string(A[a]) + " and " + std::to_string(A[b]) + " of one family overlap"); return o; }
+  for (size_t a = 0; a < B.size(); a++) for (size_t b = a + 1; b < B.size(); b++) if (inter(S[B[a]], S[B[b]])) { bad("not_a_product_code", "checks " + std::to_string(B[a]) + " and " + std::to_string(B[b]) + " of one family overlap"); return o; }
+  for (uint32_t a : A) for (uint32_t b : B) if (inter(S[a], S[b]) != 1) { bad("not_a_product_code", "row check " + std::to_string(a) + " and column check " + std::to_string(b) + " share " + std::to_string(inter(S[a], S[b])) + " source symbols, not exactly one"); return o; }
+  size_t ua = 0, ub = 0; for (uint32_t a : A) ua += S[a].size(); for (uint32_t b : B) ub += S[b].size();
+  if (ua != k || ub != k || A.size() * B.size() != k || A.size() + B.size() != r) { bad("not_a_product_code", "families of " + std::to_string(A.size()) + " and " + std::to_string(B.size()) + " checks do not form a d x l product with d*l=k, d+l=r"); return o; }
+  o.d = (uint32_t)A.size(); o.l = (uint32_t)B.size();
+  auto code = std::make_shared<CodeRef>();
+  code->cfg = cfg; code->k = k; code->r = r; code->n = n; code->L = effective_L(cfg); code->binary = true;
+  code->eqs.resize(r);
+  for (uint32_t j = 0; j < r; j++) { code->eqs[j] = S[j]; code->eqs[j].push_back(k + j); }
+  std::vector<std::vector<uint8_t>> pay;
+  CodeRef::fill_payload(cfg, code->L, pay);
+  code->cw.assign(n, std::vector<uint8_t>(code->L, 0));
+  for (uint32_t i = 0; i < k; i++) code->cw[i] = pay[i];
+  for (uint32_t j = 0; j < r; j++) for (uint32_t i : S[j]) for (uint32_t b = 0; b < code->L; b++) code->cw[k + j][b] ^= pay[i][b];
+  code->index_rows();
+  o.code = code;
+  return o;
+}
+
+inline History p2d_history(uint32_t k, uint32_t r, uint64_t mask, int api, int order, uint64_t oseed, bool finish, int payload, uint64_t pseed, uint32_t L, int cut);
+
 // ---------------------------------------------------------------------------------------------
 inline History generate(const PropSpec& ps, Chooser& ch) {
   switch (ps.kind) {
@@ -268,6 +335,7 @@ inline History generate(const PropSpec& ps, Chooser& ch) {
     case 4: return gen_code_case(ps, ch);
     case 5: return gen_lastnull_case(ps, ch);
     case 6: return gen_param_case(ps, ch);
+    case 7: { uint32_t k = ch.range(1, 16), r = ch.range(2, 10); uint64_t m = ch.seed64(); return p2d_history(k, r, m & ((1ull << (k + r)) - 1), ch.next() % 2, ch.next() % 4, ch.seed64(), ch.coin(2, 3), ch.next() % 2, ch.next(), ch.range(1, 40), -1); }
     default: return gen_single_decoder(ch, ps.go);
   }
 }
@@ -276,7 +344,22 @@ inline CaseResult run_core(const History& h, const PropSpec& ps, Stats* st, bool
   Ctx cx; cx.enabled = ps.enabled; cx.want_trace = want_trace; apply_extra(cx);
   CaseResult cr;
   if (ps.kind == 6) for (auto& s : h.scripts) if (is_boundary(s.cfg)) cx.features |= F_BOUNDARY;
-  cr.rr = run_history(h, cx, nullptr);
+  std::map<int, std::shared_ptr<CodeRef>> inj;
+  if (ps.kind == 7) {
+    static std::map<std::string, Obs2D> cache;
+    for (size_t i = 0; i < h.scripts.size(); i++) {
+      const Config& c = h.scripts[i].cfg;
+      if (c.codec != CODEC_P2D) continue;
+      std::string key = std::to_string(c.k) + "/" + std::to_string(c.r) + "/" + std::to_string(c.L) + "/" + std::to_string(c.payload) + "/" + std::to_string(c.pseed);
+      auto it = cache.find(key);
+      if (it == cache.end()) { if (cache.size() > 64) cache.clear(); it = cache.emplace(key, observe_2d(c)).first; }
+      if (it->second.status == 2) cx.fail(O_2D, it->second.sig, it->second.msg);
+      else if (it->second.status == 0) inj[(int)i] = it->second.code;
+      else cx.features |= F_REJECTED;
+    }
+  }
+  if (!cx.stop) cr.rr = run_history(h, cx, inj.empty() ? nullptr : &inj);
+  else { cr.rr.traces.resize(h.scripts.size()); cr.rr.last_null.assign(h.scripts.size(), -1); cr.rr.cfg_ok.assign(h.scripts.size(), 0); }
   // post-run cross-session checks
   if (ps.kind == 5 && h.scripts.size() == 2 && cr.rr.cfg_ok[0] && cr.rr.cfg_ok[1] && cr.rr.last_null[0] != cr.rr.last_null[1])
     cx.fail(O_LASTNULL, "encoder_decoder_disagree", "encoder and decoder sessions with equal parameters report different IS_LAST_SYMBOL_NULL");
@@ -365,9 +448,72 @@ inline History minimise_any(History h, const PropSpec& ps, const std::string& si
   return h;
 }
 
+// a decoder history for the 2D codec: received pattern `mask` in a given order through one API
+inline History p2d_history(uint32_t k, uint32_t r, uint64_t mask, int api, int order, uint64_t oseed, bool finish, int payload, uint64_t pseed, uint32_t L, int cut) {
+  History h; Script s;
+  s.cfg.codec = CODEC_P2D; s.cfg.k = k; s.cfg.r = r; s.cfg.L = L; s.cfg.payload = payload; s.cfg.pseed = pseed;
+  s.role = ROLE_DEC; s.cbmode = 1;
+  Step sp; sp.op = OP_SETPARAMS; s.steps.push_back(sp);
+  std::vector<uint32_t> rec;
+  for (uint32_t e = 0; e < k + r; e++) if (mask & (1ull << e)) rec.push_back(e);
+  if (order == 1) std::reverse(rec.begin(), rec.end());
+  if (order >= 2) seeded_shuffle(rec, oseed);
+  if (api == 1) { Step a; a.op = OP_AVAIL; a.set = rec; std::sort(a.set.begin(), a.set.end()); s.steps.push_back(a); }
+  else for (uint32_t e : rec) { Step st; st.op = OP_NEW; st.esi = e; s.steps.push_back(st); }
+  if (finish) { Step f; f.op = OP_FINISH; s.steps.push_back(f); }
+  if (cut >= 0 && (size_t)cut < s.steps.size()) s.steps.resize((size_t)cut);
+  h.scripts.push_back(s);
+  return h;
+}
+
 template <class F>
 inline void enumerate(const std::string& prop, const Tier& t, int worker, int nworkers, uint64_t seed, F one, std::string& extra_json) {
-  (void)prop; (void)t; (void)worker; (void)nworkers; (void)seed; (void)one; (void)extra_json;
+  if (prop != "C16") return;
+  // (1) which (k, r) does the codec accept?
+  std::vector<std::pair<uint32_t, uint32_t>> accepted;
+  uint64_t offered = 0;
+  std::string acc_txt;
+  for (uint32_t k = 0; k <= 17; k++)
+    for (uint32_t r = 0; r <= 12; r++) {
+      offered++;
+      Config c; c.codec = CODEC_P2D; c.k = k; c.r = r; c.L = 4; c.payload = PAY_RANDOM;
+      // encoder on identity + generated payloads; structure is judged inside run_core (observe_2d)
+      History h; Script e; e.cfg = c; e.role = ROLE_ENC;
+      Step sp; sp.op = OP_SETPARAMS; e.steps.push_back(sp);
+      for (uint32_t j = 0; j < r; j++) { Step b; b.op = OP_BUILD; b.esi = k + j; b.flag = j & 1; e.steps.push_back(b); }
+      h.scripts.push_back(e);
+      if ((k * 13 + r) % (uint32_t)nworkers == (uint32_t)worker) {
+        if (!one(h)) return;
+        for (uint32_t v = 0; v < 3; v++) { History h2 = h; h2.scripts[0].cfg.pseed = mix2(seed, v); h2.scripts[0].cfg.L = 1 + (uint32_t)(mix2(seed, v + 9) % 40); if (!one(h2)) return; }
+      }
+      Obs2D o = observe_2d(c);
+      if (o.status == 0) { accepted.push_back({k, r}); acc_txt += "(" + std::to_string(k) + "," + std::to_string(r) + ":" + std::to_string(o.d) + "x" + std::to_string(o.l) + ") "; }
+    }
+  extra_json = "\"x_offered_kr\":" + std::to_string(offered) + ",\"x_accepted_kr\":\"" + acc_txt + "\"";
+  // (2) decoder over received subsets
+  uint64_t idx = 0;
+  for (auto& kr : accepted) {
+    uint32_t k = kr.first, r = kr.second, n = k + r;
+    bool complete = t.thorough || n <= 13;
+    uint64_t total = 1ull << n;
+    uint64_t count = complete ? total : 5000;
+    for (uint64_t q = 0; q < count; q++) {
+      if ((idx++ % (uint64_t)nworkers) != (uint64_t)worker) continue;
+      uint64_t mask = complete ? q : (mix2(mix2(seed, q), n) & (total - 1));
+      if (!complete && q % 3 == 0) { // around the interesting region: few losses
+        uint64_t x = mix2(seed, q * 7 + 1); mask = total - 1; for (int z = 0; z < 1 + (int)(q % 5); z++) mask &= ~(1ull << (splitmix(x) % n));
+      }
+      int payload = (q & 1) ? PAY_IDENTITY : PAY_RANDOM;
+      uint32_t L = 1 + (uint32_t)(q % 9);
+      for (int api = 0; api < 2; api++) if (!one(p2d_history(k, r, mask, api, 0, 0, true, payload, q, L, -1))) return;
+      if (q % 16 == 0) {
+        for (int ord = 1; ord < 4; ord++) if (!one(p2d_history(k, r, mask, 0, ord, mix2(q, ord), (q & 32) == 0, payload, q, L, -1))) return;
+        // release at a generated step index
+        int steps = 2 + __builtin_popcountll(mask);
+        if (!one(p2d_history(k, r, mask, (int)(q / 16 & 1), 2, q, true, payload, q, L, (int)(mix2(q, 5) % (uint64_t)(steps + 1))))) return;
+      }
+    }
+  }
 }
 
 }}  // namespace
